@@ -71,6 +71,10 @@ def rule_reg(ctx):
 def _raise_on_wait(ev):
     if ev.kind == "call" and is_call(ev.data["term"], method="wait_for_messages"):
         return True  # unknown exception kind (ConnectionResetError, CancelledError, ...)
+    if ev.kind == "call" and ev.data.get("awaited") and ev.data.get("foreign"):
+        # anything awaited on the connection's streams (drain, wait_closed, ...) fails with the connection error once the
+        # peer is gone - exactly on the connections that are being cleaned up
+        return True
     return None
 
 
